@@ -257,6 +257,16 @@ func (vc *VC) instr(fr *Frame, st *State, ins ssa.Instruction) {
 		if !allowed {
 			vc.oblige(st, fr, "safe.panic", "", tFalse, "explicit panic is unreachable", x.Pos())
 		}
+		if allowed && fr.depth == 0 {
+			// exceptional postconditions: "ensures [label!onpanic] e" must hold in the state in which an explicit
+			// panic of this function is raised (callers up the stack recover and keep running on that state)
+			for _, e := range fr.contract.Ensures {
+				if strings.HasSuffix(e.Label, "!onpanic") {
+					t := vc.evalClause(fr, st, e, x.Block(), nil)
+					vc.obligeNoAssume(st, fr, "onpanic", e.Label, t, e.Src)
+				}
+			}
+		}
 	case *ssa.Convert:
 		vc.convert(fr, st, x)
 	case *ssa.ChangeType:
